@@ -589,6 +589,20 @@ func Files(j *job.Job, s *job.Sink) {
 		}
 		os.Chdir(filepath.Join(root, "cwd"))
 		ms := yang.NewModules()
+		// One layout in four: before the search path is set up, a broken file is read from one
+		// of its plain directories and rejected. That leaves no trace; the directory is put on
+		// the path afterwards like the others and searched like them.
+		if r.Intn(4) == 0 && len(dirs) > 1 {
+			d := dirs[1+r.Intn(len(dirs)-1)]
+			if _, rec := recursive[d]; !rec {
+				broken := filepath.Join(root, d, "zzbroken.yang")
+				os.WriteFile(broken, []byte("module zzbroken {\n  namespace \"urn:zzbroken\";\n  prefix zb;\n  container c {\n"), 0o644)
+				if err := ms.Read(broken); err == nil {
+					s.Violation(c, j.CaseID(c), j.Property+".files", "generator", "a broken file was accepted", nil, nil)
+				}
+				s.Count("layouts_with_a_rejected_read_first", 1)
+			}
+		}
 		for _, d := range spath {
 			ms.AddPath(filepath.Join(root, d))
 		}
